@@ -28,7 +28,7 @@ struct Net {
 fn node_cfg(n: &Value, id: usize, timeout: u64, rng: u64) -> Value {
     let np = n["nports"].as_u64().unwrap_or(1);
     let ports: Vec<Value> = (0..np).map(|_| json!({"p2p": false, "timeout": timeout})).collect();
-    json!({"own": {"id": id, "p1": n["p1"], "class": n["class"], "so": n["so"]}, "ports": ports, "seed": 1, "rng": rng,
+    json!({"own": {"id": id, "p1": n["p1"], "p2": n.get("p2").cloned().unwrap_or(json!(128)), "class": n["class"], "so": n["so"]}, "ports": ports, "seed": 1, "rng": rng,
            // all identities differ in the same octet so that their order is the order of the abstract ids
            })
 }
@@ -49,7 +49,10 @@ impl Net {
             .map(|s| s.as_array().unwrap().iter().map(|p| (p[0].as_u64().unwrap() as usize, p[1].as_u64().unwrap() as usize)).collect()).collect();
         let ns = topo.len();
         let nn = nodes.len();
-        Net { worlds, topo, cut: vec![false; ns], silent: vec![false; nn], inflight: BTreeMap::new() }
+        // segments that are down when the network starts (indices into topo)
+        let mut cut = vec![false; ns];
+        if let Some(c0) = cfg.get("cut0").and_then(|c| c.as_array()) { for i in c0 { cut[i.as_u64().unwrap() as usize] = true; } }
+        Net { worlds, topo, cut, silent: vec![false; nn], inflight: BTreeMap::new() }
     }
     fn peers(&self, p: (usize, usize)) -> Vec<(usize, usize)> {
         let mut v = vec![];
@@ -92,6 +95,7 @@ fn replay(cfg: &Value, dir: &str) {
     let mut viol: Vec<Value> = vec![];
     let mut mism: BTreeMap<String, u64> = BTreeMap::new();
     let mut samples = vec![];
+    let mut kinds: BTreeMap<String, u64> = BTreeMap::new();   // last event of every edge, by kind
     for line in std::io::stdin().lock().lines() {
         let line = line.unwrap();
         let s = match line.strip_prefix("<<\"E\", ").and_then(|s| s.strip_suffix(">>")) { Some(s) => s, None => { eprintln!("{}", line); continue; } };
@@ -102,6 +106,7 @@ fn replay(cfg: &Value, dir: &str) {
         n += 1;
         let mut net = Net::new(cfg, 0);
         let mut bad: Option<String> = None;
+        if let Some(last) = hist.last() { *kinds.entry(last["e"].as_str().unwrap_or("?").to_string()).or_default() += 1; }
         for ev in hist {
             events += 1;
             let r = match ev["e"].as_str().unwrap() {
@@ -124,6 +129,8 @@ fn replay(cfg: &Value, dir: &str) {
                 "quality" => net.worlds[ev["n"].as_u64().unwrap() as usize - 1].step(&json!({"e": "q", "q": ev["q"]})),
                 "cut" => { let seg: Vec<(usize, usize)> = ev["seg"].as_array().unwrap().iter().map(|p| (p[0].as_u64().unwrap() as usize, p[1].as_u64().unwrap() as usize)).collect();
                            for (i, s) in net.topo.iter().enumerate() { let mut a = s.clone(); a.sort(); let mut b = seg.clone(); b.sort(); if a == b { net.cut[i] = true; } } json!({}) }
+                "restore" => { let seg: Vec<(usize, usize)> = ev["seg"].as_array().unwrap().iter().map(|p| (p[0].as_u64().unwrap() as usize, p[1].as_u64().unwrap() as usize)).collect();
+                           for (i, s) in net.topo.iter().enumerate() { let mut a = s.clone(); a.sort(); let mut b = seg.clone(); b.sort(); if a == b { net.cut[i] = false; } } json!({}) }
                 "silence" => { net.silent[ev["n"].as_u64().unwrap() as usize - 1] = true; json!({}) }
                 _ => json!({}),
             };
@@ -146,7 +153,7 @@ fn replay(cfg: &Value, dir: &str) {
             }
         }
     }
-    println!("{}", json!({"edges": n, "events": events, "mismatch_by_field": mism, "samples": samples, "violations": viol}));
+    println!("{}", json!({"edges": n, "events": events, "last_event_kinds": kinds, "mismatch_by_field": mism, "samples": samples, "violations": viol}));
 }
 
 const SEC: u64 = 1_000_000_000;
@@ -178,7 +185,8 @@ fn free(cfg: &Value, seed: u64, trace: &str, horizon_s: u64) {
     for n in 0..nn { for p in 0..net.worlds[n].ports.len() { let d = net.worlds[n].expected_rcpt(p).as_nanos() as u64; timers.insert((n + 1, p + 1, 2), d); } }
     let mut f = std::io::BufWriter::new(std::fs::File::create(trace).unwrap());
     let nodes = cfg["nodes"].as_array().unwrap();
-    writeln!(f, "{}", json!({"e": "cfg", "n": nn, "prio": nodes.iter().map(|n| n["p1"].clone()).collect::<Vec<_>>(), "topo": cfg["topo"], "k": cfg["quiet_rounds"].as_u64().unwrap_or(12)})).unwrap();
+    writeln!(f, "{}", json!({"e": "cfg", "n": nn, "prio": nodes.iter().map(|n| n["p1"].clone()).collect::<Vec<_>>(),
+                             "prio2": nodes.iter().map(|n| n.get("p2").cloned().unwrap_or(json!(128))).collect::<Vec<_>>(), "topo": cfg["topo"], "k": cfg["quiet_rounds"].as_u64().unwrap_or(12)})).unwrap();
     let mut now = 0u64;
     let mut last_disturb = 0u64;
     let fault_at = cfg["fault_at_s"].as_u64().map(|s| s * SEC);
@@ -236,6 +244,7 @@ fn free(cfg: &Value, seed: u64, trace: &str, horizon_s: u64) {
                 last_disturb = now;
                 match cfg["fault"]["kind"].as_str().unwrap_or("") {
                     "cut" => { net.cut[cfg["fault"]["seg"].as_u64().unwrap() as usize] = true; }
+                    "restore" => { net.cut[cfg["fault"]["seg"].as_u64().unwrap() as usize] = false; }
                     "silence" => { net.silent[cfg["fault"]["n"].as_u64().unwrap() as usize - 1] = true; }
                     "quality" => { let n = cfg["fault"]["n"].as_u64().unwrap() as usize - 1; net.worlds[n].step(&json!({"e": "q", "q": {"class": 6, "acc": 33, "var": 100}})); }
                     _ => {}
